@@ -86,6 +86,7 @@ theorem c04_npm_only_sections (content : Text) (tree : Node) (p : PkgInfo) (h : 
       unfold npmSections at hsec
       simp only [List.mem_filterMap] at hsec
       obtain ⟨secPair, hsp, hv⟩ := hsec
+      unfold npmSectionOf at hv
       by_cases hpk : secPair.kind = "pair"
       · simp only [hpk, bne_self_eq_false, Bool.false_eq_true, if_false] at hv
         cases hkey : secPair.childByField "key" with
